@@ -154,6 +154,8 @@ def path_condition(fn_node, target, loop_scoped=True):
         continue
       if not contains(s):
         continue
+      if s is target:
+        return True          # the statement itself: its own test is not a condition
       if isinstance(s, ast.If):
         if contains(s.test):
           return rec_expr(s.test)
